@@ -272,7 +272,7 @@ def playback(xt_dir, hdir, harness, harness_file, timeout=900, harness_modpath=N
     return res
 
 
-def run_playback_test(xt_dir, test_name, test_src, timeout=900):
+def run_playback_test(xt_dir, test_name, test_src, timeout=300):
     env = dict(os.environ, CARGO_NET_OFFLINE='true')
     # playback needs unwinding: drop `panic = "abort"` from the scratch manifest (only change)
     ct = os.path.join(xt_dir, 'Cargo.toml')
